@@ -10,6 +10,7 @@ use geo_types::{
     Coord, CoordFloat, CoordNum, Error, Geometry, GeometryCollection, Line, LineString, MultiLineString, MultiPoint, MultiPolygon, Point,
     Polygon, Rect, Triangle,
 };
+use geo::Vector2DOps;
 use serde_json::{json, Value};
 use std::convert::TryFrom;
 use std::fmt::Debug;
@@ -315,6 +316,41 @@ fn pair_float<T: Sc + CoordFloat>(cx: &mut Ctx, case: &Value) {
     k.holds("point_to_radians", "Point a .to_radians()", guard(|| { let g = pa.to_radians(); (g, within(g.x().f(), &rad[0]) && within(g.y().f(), &rad[1])) }),
             "x pi / 180 with 3.14159 < pi < 3.14160 (exactly 0 for 0)");
     k.eq("rect_center", "Rect::new(a, b).center()", guard(|| Rect::new(a, b).center()), qc(&case["center"]));
+    // ---- geo::Vector2DOps (implemented for float scalars only)
+    k.eq("coord_vec_wedge", "a.wedge_product(b)", guard(|| a.wedge_product(b)), T::of(iv(&case["wedge"])));
+    k.eq("coord_vec_wedge_swapped", "b.wedge_product(a)", guard(|| b.wedge_product(a)), T::of(-iv(&case["wedge"])));
+    k.eq("coord_vec_dot", "a.dot_product(b)", guard(|| a.dot_product(b)), T::of(iv(&case["dot"])));
+    k.eq("coord_vec_magnitude_squared", "a.magnitude_squared()", guard(|| a.magnitude_squared()), T::of(iv(&case["magsq"])));
+    k.eq("coord_vec_left", "a.left()", guard(|| a.left()), co(&case["left"]));
+    k.eq("coord_vec_right", "a.right()", guard(|| a.right()), co(&case["right"]));
+    k.eq("coord_vec_is_finite", "a.is_finite()", guard(|| a.is_finite()), true);
+    let r = iv(&case["isqrt"]) as f64;
+    if case["mag_exact"].as_bool().unwrap() {
+        k.eq("coord_vec_magnitude", "a.magnitude()", guard(|| a.magnitude()), T::of(iv(&case["isqrt"])));
+    } else {
+        k.holds("coord_vec_magnitude", "a.magnitude()", guard(|| { let m = a.magnitude(); (m, r < m.f() && m.f() < r + 1.0) }),
+                "strictly between the integer root of x^2 + y^2 and its successor");
+    }
+    let sg = (iv(&case["signs"][0]), iv(&case["signs"][1]));
+    if sg == (0, 0) {
+        k.eq("coord_vec_try_normalize_zero", "Coord zero .try_normalize()", guard(|| a.try_normalize()), None);
+    } else if case["axis"].as_bool().unwrap() {
+        k.eq("coord_vec_try_normalize_axis", "a.try_normalize() of an axis-parallel vector", guard(|| a.try_normalize()),
+             Some(Coord { x: T::of(sg.0), y: T::of(sg.1) }));
+    } else {
+        let sign = |v: f64| if v > 0.0 { 1 } else if v < 0.0 { -1 } else { 0 };
+        k.holds("coord_vec_try_normalize", "a.try_normalize()", guard(|| {
+            let n = a.try_normalize();
+            let ok = match n {
+                None => false,
+                Some(u) => {
+                    let (ux, uy) = (u.x.f(), u.y.f());
+                    (sign(ux), sign(uy)) == sg && (ux * ux + uy * uy - 1.0).abs() < 1e-5 && (a.x.f() * uy - a.y.f() * ux).abs() < 1e-4
+                }
+            };
+            (n, ok)
+        }), "Some(u): u has the signs of a, unit length and is parallel to a (1e-5)");
+    }
 }
 
 pub fn pair_case(cx: &mut Ctx, n: u64, case: &Value) {
